@@ -15,7 +15,15 @@ import (
 
 const C05Rule = "Byte strings fed to ReadFrom and ReadBlock of every struct of the registry (request/response packets included) and to tup.UniAttribute.Decode: (random) uniform bytes and head-biased bytes; (mutant) valid encodings with bit flips, truncation, embedded lengths rewritten to -1/0x7fffffff/0x80000000/remaining+-1, type-nibble rewrites, spliced foreign fields; (shape) nesting bombs of StructBegin / LIST-of-LIST / MAP-of-MAP of depth 10^2..10^6 as unknown and known members, giant announced counts with tiny bodies, array lists longer than the array. Oracle: returns value or error - no panic, terminates (wall <= 5 s + 1 us/byte, re-run twice before it counts), bytes allocated <= 4096*len(input)+64 KiB. Non-trivial = input not rejected at its first head byte: decoding consumed >= 3 fields before the verdict (observed as: strict scanner finds >= 3 complete leading fields), or depth >= 8, or an announced length > remaining. Distinct = distinct (struct, entry point, bytes)."
 
+// Seg is one run of a multi-segment hostile input: Head, then Unit repeated Rep times.
+type Seg struct {
+	Head []byte `json:"head,omitempty"`
+	Unit []byte `json:"unit"`
+	Rep  int    `json:"rep"`
+}
+
 type C05Case struct {
+	Segs   []Seg  `json:"segs,omitempty"`
 	Struct string `json:"struct"`
 	Block  bool   `json:"block"` // ReadBlock(tag 0) instead of ReadFrom
 	Kind   string `json:"kind"`
@@ -28,6 +36,16 @@ type C05Case struct {
 }
 
 func (c C05Case) input() []byte {
+	if len(c.Segs) > 0 {
+		var b []byte
+		for _, s := range c.Segs {
+			b = append(b, s.Head...)
+			for i := 0; i < s.Rep; i++ {
+				b = append(b, s.Unit...)
+			}
+		}
+		return b
+	}
 	if c.Rep == 0 {
 		return c.In
 	}
@@ -242,6 +260,38 @@ func (r *Registry) Bombs() map[string]C05Case {
 	}
 }
 
+// PairBombs enumerates all ordered pairs of maximum-size hostile runs (each half of the
+// 10 MiB packet budget): runs of struct begins, struct ends, zero fields, nested lists,
+// nested maps, and lists / maps whose elements are bare struct-end heads. Pairs matter
+// because one run can put a decoder's bookkeeping (depth counters, positions) into a state
+// that only the second run exploits.
+func (r *Registry) PairBombs() map[string]C05Case {
+	half := 5 << 20
+	count := func(ty int, n int) []byte {
+		var e rc.Enc
+		e.Head(ty, 0)
+		e.Int(int64(n), 0)
+		return e.Buf
+	}
+	runs := map[string]Seg{
+		"structbegin": {Unit: []byte{0x0A}, Rep: half},
+		"structend":   {Unit: []byte{0x0B}, Rep: half},
+		"zero":        {Unit: []byte{0x0C}, Rep: half},
+		"listnest":    {Unit: []byte{0x09, 0x00, 0x01}, Rep: half / 3},
+		"mapnest":     {Head: []byte{0x08, 0x00, 0x01}, Unit: []byte{0x0C, 0x18, 0x00, 0x01}, Rep: half / 4},
+		"list-of-structend": {Head: count(rc.WList, half), Unit: []byte{0x0B}, Rep: half},
+		"map-of-structend":  {Head: count(rc.WMap, half/2), Unit: []byte{0x0B}, Rep: half},
+	}
+	out := map[string]C05Case{}
+	key := r.Keys[0]
+	for an, a := range runs {
+		for bn, b := range runs {
+			out[an+"+"+bn] = C05Case{Struct: key, Kind: "pair-bomb", Segs: []Seg{a, b}, NT: true}
+		}
+	}
+	return out
+}
+
 // RunC05 registers the in-process C05 sub-checks for one registry.
 func (r *Registry) RunC05(t *testing.T, st *stat.Stats, quick, thorough int) {
 	if stat.ReplayPath() == "" {
@@ -250,6 +300,11 @@ func (r *Registry) RunC05(t *testing.T, st *stat.Stats, quick, thorough int) {
 			st.Case([]byte(name+r.Name), true, func() any { return map[string]any{"pinned": name, "len": len(c.input())} }, r.Name, "pinned-bomb")
 		}
 		stat.Pinned(t, st, "c05-bombs-"+r.Name, bombs, r.RunC05Case)
+		pairs := r.PairBombs()
+		for name := range pairs {
+			st.Case([]byte("pair"+name+r.Name), true, nil, r.Name, "pinned-pair-bomb")
+		}
+		stat.Pinned(t, st, "c05-pairbombs-"+r.Name, pairs, r.RunC05Case)
 	}
 	stat.Check(t, st, "c05-"+r.Name, stat.N(quick, thorough), r.drawC05, func(c C05Case) *stat.Failure {
 		in := c.input()
